@@ -210,3 +210,38 @@ void bad_ct_alg__address__ep_mul_lwreg(ep_t r, const ep_t p, const bn_t k) {
 	}
 	ep_copy(r, (const ep_st *)e);
 }
+
+/* the public early exit behind a static predicate helper whose name looks like a multiplication (behaviour-preserving) */
+static int ep_mul_is_trivial_st(const ep_t p, const bn_t k) {
+	return (bn_is_zero(k) || ep_is_infty(p));
+}
+
+void ok_alg_helper__ep_mul_monty(ep_t r, const ep_t p, const bn_t k) {
+	bn_t n, l;
+	ep_t t[2];
+	size_t bits;
+	if (ep_mul_is_trivial_st(p, k)) {
+		ep_set_infty(r);
+		return;
+	}
+	RLC_TRY {
+		bn_new(n);
+		bn_new(l);
+		ep_curve_get_ord(n);
+		bits = bn_bits(n);
+		bn_mod(l, k, n);
+		bn_add(l, l, n);
+		ep_norm(t[0], p);
+		ep_dbl(t[1], t[0]);
+		for (int i = bits - 1; i >= 0; i--) {
+			int j = bn_get_bit(l, i);
+			dv_swap_sec(t[0]->x, t[1]->x, RLC_FP_DIGS, j ^ 1);
+			ep_add(t[0], t[0], t[1]);
+			ep_dbl(t[1], t[1]);
+			dv_swap_sec(t[0]->x, t[1]->x, RLC_FP_DIGS, j ^ 1);
+		}
+		ep_norm(r, t[0]);
+	} RLC_CATCH_ANY {
+		RLC_THROW(ERR_CAUGHT);
+	}
+}
